@@ -338,7 +338,7 @@ def cli_work(shard, nshards, payload):
     import subprocess
     t = vc.Tally()
     vd = vc.worker_vdrive()
-    stems = ["First", "Second", "Third"]
+    stems = ["First", "second", "ThirdForm"]      # the class of a form is its file stem, exactly as spelt
     with vc.scratch_dir("c09cli") as scratch:
         for hi, hist in enumerate(cli_histories(payload["tier"])):
             if hi % nshards != shard:
